@@ -48,13 +48,19 @@ def _hit(vis, nodes):
     return any(n in vis for n in nodes)
 
 
-def _literal_choices(v):
+def _literal_choices(v, cls=None):
     """String literals an expression can evaluate to: a literal, or conditional expressions / boolean selections of literals."""
     if isinstance(v, ast.Constant) and isinstance(v.value, str):
         return [v.value]
     if isinstance(v, ast.IfExp):
-        a, b = _literal_choices(v.body), _literal_choices(v.orelse)
+        a, b = _literal_choices(v.body, cls), _literal_choices(v.orelse, cls)
         return None if a is None or b is None else a + b
+    if isinstance(v, ast.Subscript) and cls is not None and isinstance(v.value, ast.Attribute) and self_attr(v.value):
+        tab = class_assigns(cls).get(v.value.attr)          # selection from a class-level table of state names
+        if isinstance(tab, (ast.Tuple, ast.List, ast.Dict)):
+            elems = list(tab.values) if isinstance(tab, ast.Dict) else list(tab.elts)
+            if elems and all(isinstance(e, ast.Constant) and isinstance(e.value, str) for e in elems):
+                return [e.value for e in elems]
     return None
 
 
@@ -66,7 +72,7 @@ def _state_table(ctx):
     for name, m in ms.items():
         for st in ast.walk(m):
             if isinstance(st, ast.Assign) and any(self_attr(t, "state") for t in assigned_targets(st)):
-                vals = _literal_choices(st.value)
+                vals = _literal_choices(st.value, cls)
                 if vals is None:
                     raise AnalysisError(f"state assigned from a non-literal expression: {src(st)[:80]}")
                 for v in vals:
@@ -490,6 +496,8 @@ def check(ctx):
 
 
 MUTANTS = [
+    Mutant("state-table-entry-without-a-handler", HTTP, '        if length == 0:\n            self.state = "TRAILER"\n        else:\n            self.state = "BODY"\n',
+           '        self.state = self._afterSizeLine[length == 0]\n', more=[(HTTP, '    state = "CHUNK_LENGTH"\n\n    def __init__(\n        self,\n        dataCallback: Callable[[bytes], None],', '    state = "CHUNK_LENGTH"\n    _afterSizeLine = ("BODY", "TRAILERS")\n\n    def __init__(\n        self,\n        dataCallback: Callable[[bytes], None],')]),
     Mutant("trailer-lines-restricted-to-token-bytes", HTTP, "            self._trailerHeaders.append(self._buffer[0:eolIndex])\n", "            if bytes(self._buffer[0:eolIndex]).translate(None, _chunkExtChars + b\":\") != b\"\":\n                raise _MalformedChunkedDataError(\"Bad trailer.\")\n            self._trailerHeaders.append(self._buffer[0:eolIndex])\n"),
     Mutant("F22t-revert-trailer-line-consumed-before-the-limit-test", HTTP, '            receivedSize = self._receivedTrailerHeadersSize + eolIndex + 2\n            if receivedSize > self._maxTrailerHeadersSize:\n                raise _MalformedChunkedDataError("Trailer headers data is too long.")\n            self._trailerHeaders.append(self._buffer[0:eolIndex])\n            del self._buffer[0 : eolIndex + 2]\n            self._start = 0\n            self._receivedTrailerHeadersSize = receivedSize\n',
            '            self._trailerHeaders.append(self._buffer[0:eolIndex])\n            del self._buffer[0 : eolIndex + 2]\n            self._start = 0\n            self._receivedTrailerHeadersSize += eolIndex + 2\n            if self._receivedTrailerHeadersSize > self._maxTrailerHeadersSize:\n                raise _MalformedChunkedDataError("Trailer headers data is too long.")\n', expect_rule="absorbing/no-consumption-before-reject"),
@@ -535,6 +543,8 @@ MUTANTS = [
     Mutant("fromChunk-crlf-unchecked", HTTP, "    if rest[length : length + 2] != b\"\\r\\n\":\n        raise ValueError(\"chunk must end with CRLF\")\n", ""),
 ]
 SILENT = [
+    Silent("next-state-from-a-class-level-table", HTTP, '        if length == 0:\n            self.state = "TRAILER"\n        else:\n            self.state = "BODY"\n',
+           '        self.state = self._afterSizeLine[length == 0]\n', more=[(HTTP, '    state = "CHUNK_LENGTH"\n\n    def __init__(\n        self,\n        dataCallback: Callable[[bytes], None],', '    state = "CHUNK_LENGTH"\n    _afterSizeLine = ("BODY", "TRAILER")\n\n    def __init__(\n        self,\n        dataCallback: Callable[[bytes], None],')]),
     Silent("state-by-conditional-expression", HTTP, "        if length == 0:\n            self.state = \"TRAILER\"\n        else:\n            self.state = \"BODY\"\n", "        self.state = \"TRAILER\" if length == 0 else \"BODY\"\n"),
     Silent("dispatch-loop-with-break", HTTP, "        goOn = True\n        while goOn and self._buffer:\n            goOn = getattr(self, \"_dataReceived_\" + self.state)()", "        while self._buffer:\n            step = getattr(self, \"_dataReceived_\" + self.state)\n            if not step():\n                break"),
     Silent("limit-exception-built-by-helper", HTTP, "            raise _MalformedChunkedDataError(\n                \"Chunk size line exceeds maximum of {} bytes.\".format(\n                    maxChunkSizeLineLength\n                )\n            )\n", "            raise self._tooLong()\n",
